@@ -118,6 +118,19 @@ def run(chk):
             chk.note("the known race (F7) is no longer reachable in the model for %s - the exemption is stale" % lock)
         else:
             chk.cov.setdefault("known_shape_reachable_in_model", []).append(lock)
+    # "no ceremony deadlocks" as a liveness property: under weak fairness every schedule of the pairs ends (FairSpec,
+    # PROPERTY Termination; no state constraint, no VIEW)
+    for lock in ("mutex", "rwlock"):
+        cfg = "ConcMC_live_%s.cfg" % lock
+        r = vlib.tlc("ConcMC.tla", cfg, w, workers=6, timeout=1800, xmx="8g")
+        if r.temporal_violated or r.invariant_violated:
+            chk.violation({"inv": "model:Termination", "lock": lock},
+                          "the model (Concurrent.tla, %s) has a fair schedule that never finishes" % cfg,
+                          {"kind": "tlc", "cfg": cfg, "out": r.out[-5000:]})
+            continue
+        vlib.tlc_must_complete(r, cfg)
+        chk.cov["model_runs"].append({"cfg": cfg, "distinct": r.distinct, "generated": r.generated, "depth": r.depth,
+                                      "temporal": "<>(all ceremonies finished) under WF_vars(Next): holds"})
     # ceremonies that fail after their counter update was accepted, or at a store call that fails
     for lock in ("mutex", "rwlock"):
         pairs(chk, "ConcMC_fail_%s.cfg" % lock, "failpairs-" + lock, ("C19.", "Any.Crash"))
